@@ -47,7 +47,7 @@ MANIFEST = {
     "technique": "Lean 4 refinement proof (code encoder o describe_state = specification over objects; construction from the scenario) + ground-truth differential rig",
     "design_ref": "5/C09",
 }
-MODULES = ["PrimaiteModel.Props.C09", "PrimaiteModel.Props.C09Cfg", "PrimaiteModel.Props.C09Health"]
+MODULES = ["PrimaiteModel.Props.C09", "PrimaiteModel.Props.C09Cfg", "PrimaiteModel.Props.C09Health", "PrimaiteModel.Props.C09Power"]
 EXE = "drv_c02"
 
 
@@ -92,7 +92,9 @@ def chaos(game, rng: Rng) -> None:
             for _ in range(rng.range(1, 6)):
                 node.file_system.create_file(file_name=f"v{rng.below(1000)}.txt", folder_name=rng.choice(["root", "verif"]))
         elif k == 6:
-            rng.choice([node.power_off, node.power_on, node.reset])()
+            netnodes = [n for n in pool if type(n).__name__ in ("Router", "Firewall", "WirelessRouter")]
+            target = rng.choice(netnodes) if netnodes and rng.chance(1, 2) else node  # routers and firewalls too, not only hosts
+            rng.choice([target.power_off, target.power_on, target.reset])()
         elif k == 7 and node.network_interface:
             nic = rng.choice(list(node.network_interface.values()))
             rng.choice([nic.disable, nic.enable])()
@@ -276,6 +278,36 @@ def acl_family(ctx: Ctx, rng: Rng, n: int) -> int:
             o, exc, raw = rig.observe_impl(obj, state)
             lines.append("spec " + " ".join(rig.truth_tokens(sim)))  # ground truth from the objects
             impl.append((o, exc))
+        # power transitions of the router / firewall itself, with its ACLs full of rules, ports enabled: every state on the way down
+        # (SHUTTING_DOWN … OFF) and up again (BOOTING … ON) is observed and compared with the ground truth
+        tick = [0]
+
+        def observe_now():
+            state = sim.describe_state()
+            o, exc, raw = rig.observe_impl(obj, state)
+            lines.append("spec " + " ".join(rig.truth_tokens(sim)))
+            impl.append((o, exc))
+            rules = sum(1 for a in acls for r in a.acl if r is not None)
+            ctx.count(f"acl-family:observed-while:{node.operating_state.name}:{'firewall' if fw else 'router'}" + (":with-rules" if rules else ""))
+
+        def step_sim():
+            tick[0] += 1
+            sim.pre_timestep(tick[0])
+            sim.apply_timestep(tick[0])
+        node.power_off()
+        observe_now()
+        for _ in range(8):
+            if node.operating_state.name == "OFF":
+                break
+            step_sim()
+            observe_now()
+        node.power_on()
+        observe_now()
+        for _ in range(8):
+            if node.operating_state.name == "ON":
+                break
+            step_sim()
+            observe_now()
         cases.append((len(lines_all), lines, impl, cfg))
         lines_all += lines
     model_all = run_driver(EXE, lines_all)
